@@ -3,6 +3,7 @@ package setmodel
 import (
 	"context"
 	"math"
+	"sort"
 	"testing"
 
 	"github.com/anyproto/any-sync/app/ldiff"
@@ -107,5 +108,24 @@ func TestDiffModel(t *testing.T) {
 	n, o, th, r := CompareDiff(a, b)
 	if len(n) != 1 || n[0] != "w" || len(o) != 1 || o[0] != "z" || len(th) != 1 || th[0] != "y" || len(r) != 1 || r[0] != "x" {
 		t.Fatalf("%v %v %v %v", n, o, th, r)
+	}
+}
+
+func TestSpacedOut(t *testing.T) {
+	in := []IDSpec{Exact(1000, 0), Exact(1001, 0), Exact(1000+MinGapDomain, 0), Rank(5), Rank(5), Exact(RankHash(5)+7, 0), Exact(^uint64(0), 0)}
+	out := SpacedOut(in)
+	if len(out) != 4 {
+		t.Fatalf("kept %v", out)
+	}
+	var hs []uint64
+	for _, sp := range out {
+		hs = append(hs, sp.Hash())
+	}
+	sort.Slice(hs, func(i, j int) bool { return hs[i] < hs[j] })
+	if TooClose(hs) {
+		t.Fatal("still too close")
+	}
+	if !InRemainder(^uint64(0), 3) || InRemainder(^uint64(0), 2) || InRemainder(^uint64(0), 16) || !InRemainder(^uint64(0)-1, 7) || InRemainder(^uint64(0)-2, 7) {
+		t.Fatal("InRemainder")
 	}
 }
